@@ -5,7 +5,7 @@
    sessions on the real library with the lookup hook on:
      session(id, kind)   a Db was built / opened: memory | disk_first | disk_reopen | disk_rebuild
      lookup(s, q, win, tie)   phrase number q asked in session s; `win` = shipped position of
-                         the returned document, `tie` = shipped positions of all documents
+                         the constant that was returned (-1: none), `tie` = shipped positions of all documents
                          that share the best score (from the hook's top-8 list)
    The specification side: a session's index is the result of IndexBuild with one worker
    (ShippedOrder, model-checked), so the answer is Winner(<<shipped order>>, tie) = Min(tie).
@@ -35,10 +35,10 @@ TLookup == /\ l <= Len(Rec) /\ Rec[l].ev = "lookup"
            /\ LET q == Rec[l].q
                   w == Rec[l].win
                   T == SetOf(Rec[l].tie) IN
-              /\ w \in T
               /\ answer[q] = 0 \/ answer[q] = w           \* agreement with the history
               /\ answer' = [answer EXCEPT ![q] = w]
-              /\ IF w = Min(T) \/ ~Rec[l].full THEN TRUE ELSE TLCSet(2, TLCGet(2) + 1)  \* canonical winner? (drift only)
+              \* canonical winner (the earliest of the best-scored documents)?  drift only
+              /\ IF (w \in T /\ w = Min(T)) \/ ~Rec[l].full THEN TRUE ELSE TLCSet(2, TLCGet(2) + 1)
            /\ l' = l + 1 /\ UNCHANGED sessions
 
 \* the layout of a freshly built on-disk index, read with tantivy directly: IndexBuild.tla with one worker publishes one
